@@ -215,3 +215,23 @@ PROPS["C12"] = {
         "the environment variable VERIF_C12 is set by the generated rules (process-wide by design)",
     ],
 }
+
+PROPS["C05"] = {
+    "level": "exploration",
+    "runs": [run("TestC05", (1500, 6), (60000, 16))],
+    "rule": "cases = (configuration with tracers, state readers and 2..6 conditional state-leaving rules: every ctl option, skip / skipAfter "
+            "(marker present or absent) / allow scopes, deny / drop / redirect, capture, setvar, severity, log flags), 1..3 predecessor "
+            "transactions (bodies in memory, spilled to disk, JSON valid and broken, multipart upload; response bodies valid and broken; "
+            "stopped after any API call, without ProcessLogging, closed twice) and an independent probe transaction; oracle = (a) the probe's "
+            "full outcome on the used WAF equals the outcome on a fresh WAF of the same configuration, (b) the reflective dump of the recycled "
+            "transaction object equals the dump of a brand-new one, (c) body readers obtained before Close yield nothing afterwards; "
+            "non-trivial = the probe object is pointer-identical to a predecessor object (pool reuse measured, GC off) and a predecessor "
+            "left residual state",
+    "essential": {"all": ["pool-reuse-observed", "pred-truncated", "pred-no-logging", "pred-double-close", "pred-body-spilled", "readers-checked",
+                          "residual:ctl-ruleEngine", "residual:ctl-ruleRemoveById", "residual:ctl-ruleRemoveTargetById", "residual:skipAfter-absent",
+                          "residual:allow", "residual:deny", "residual:ctl-requestBodyLimit", "residual:ctl-responseBodyProcessor"]},
+    "assumptions": COMMON_ASSUME + [
+        "masked in the structural comparison: id, context, timestamps and time variables, logger, WAF pointer, stopwatch, the per-phase transformation cache (cleared at every phase start)",
+        "setenv is not generated (process-wide by design)",
+    ],
+}
